@@ -1,6 +1,8 @@
 import Resvg.Props.C01
 #print axioms Resvg.Props.C01.foldl_congr_mem
+#print axioms Resvg.Props.C01.C01_text_fuel_suffices
 #print axioms Resvg.Props.C01.C01_fuel_suffices
+#print axioms Resvg.Props.C01.C01_text_nodes_bounded
 #print axioms Resvg.Props.C01.C01_nodes_bounded
 #print axioms Resvg.Props.C01.C01_build_nodes_bounded
 #print axioms Resvg.Props.C01.C01_href_iter_terminates
